@@ -323,7 +323,9 @@ func lookup(instr *ssa.Lookup, x, idx value) value {
 		var ok bool
 		switch x := x.(type) {
 		case map[value]value:
-			v, ok = x[idx]
+			if k, found := mapFindKey(x, idx); found {
+				v, ok = x[k]
+			}
 		case *hashmap:
 			v = x.lookup(idx.(hashable))
 			ok = v != nil
@@ -1007,7 +1009,9 @@ func callBuiltin(caller *frame, callpos token.Pos, fn *ssa.Builtin, args []value
 	case "delete": // delete(map[K]value, K)
 		switch m := args[0].(type) {
 		case map[value]value:
-			delete(m, args[1])
+			if k, found := mapFindKey(m, args[1]); found {
+				delete(m, k)
+			}
 		case *hashmap:
 			m.delete(args[1].(hashable))
 		default:
